@@ -18,7 +18,8 @@ FORMS = ["fn", "method", "closure"]
 
 class R:
     def __init__(self, order="dlast"):
-        self.order = order     # where a match writes its default arm: dlast | dfirst | dmid
+        self.loopflag = order == "loopflag"      # while loops controlled by a re-armed local flag
+        self.order = order if order in ("dfirst", "dmid") else "dlast"     # where a match writes its default arm
         self.ret = 0
         self.cmp = 0
         self.pre = []          # declarations hoisted to the top of the function
@@ -67,6 +68,13 @@ def rstmt(s, r, ind):
         return ["%smatch %s {" % (pad, p)] + [l for a in arms for l in a] + [pad + "}"]
     if k == "while":
         r.pre.append("    let i%d: i32 = 0;" % n)
+        if r.loopflag:
+            # the same loop controlled by a local flag that is re-armed after the loop (a dead store): what is known
+            # about the flag at the end of the function says nothing about the loop's exit
+            r.pre.append("    let go%d: bool = false;" % n)
+            return ["%si%d = 0;" % (pad, n), "%sgo%d = i%d < %s;" % (pad, n, n, p), "%swhile go%d {" % (pad, n),
+                    "%s    i%d = i%d + 1;" % (pad, n, n), "%s    go%d = i%d < %s;" % (pad, n, n, p)] + \
+                rblock(s["b"], r, ind + 1) + [pad + "}", "%sgo%d = true;" % (pad, n)]
         return ["%si%d = 0;" % (pad, n), "%swhile i%d < %s {" % (pad, n, p), "%s    i%d = i%d + 1;" % (pad, n, n)] + \
             rblock(s["b"], r, ind + 1) + [pad + "}"]
     if k == "whiletrue":
@@ -149,6 +157,8 @@ def run(tier, seed, replay=None):
     jobs, index = [], []
     for c in cases:
         fs = forms if (tier == "thorough" or replay or max_depth(c["body"]) <= 1) else [FORMS[len(jobs) % 3]]
+        if not replay and has_kind(c["body"], "while"):
+            fs = list(fs) + [FORMS[(len(jobs) + 2) % 3] + "/loopflag"]
         if not replay and has_default_match(c["body"]):
             # the same body with the default arm written first / in the middle (one form, rotating)
             fs = list(fs) + [FORMS[len(jobs) % 3] + "/dfirst", FORMS[(len(jobs) + 1) % 3] + "/dmid"]
@@ -234,6 +244,15 @@ def signature(shape):
     s = re.sub(r"p,(?=[rbc])", "", s)          # `print, X`  ->  X
     s = re.sub(r"(?<![a-z0-9])p(?![a-z0-9])", "", s)   # a block that only prints == empty block
     return s
+
+
+def has_kind(b, kind):
+    for s in b:
+        if s["k"] == kind:
+            return True
+        if any(has_kind(s[x], kind) for x in ("t", "u", "e", "a", "b", "d") if x in s and not is_nodefault(s[x])):
+            return True
+    return False
 
 
 def has_default_match(b):
